@@ -364,10 +364,8 @@ for _n, _w in (("c13_mpc_result_is_delivered_once", "mpc() returned output bits,
 
 # C15: cancel() as a single command against the other states
 _C15 = [("c15_cancel_in_init", "Init", [], "quick"), ("c15_cancel_in_validate_requested", "ValidateRequested", ["sc_validate_requested_ctor"], "thorough"),
-        ("c15_cancel_in_awaiting_validation_with_destination", "AwaitingValidation, destination present", ["sc_awaiting_validation_ctor"], "thorough"),
         ("c15_cancel_in_validated_with_destination", "Validated, destination present", ["sc_validated_ctor"], "quick"),
         ("c15_cancel_in_validated_without_destination", "Validated, no destination", ["sc_validated_ctor"], "quick"),
-        ("c15_cancel_in_sending_consts_completed_with_destination", "SendingConstsCompleted, destination present", ["sc_sending_consts_completed_ctor"], "thorough"),
         ("c15_cancel_in_running_with_destination", "Running, destination present", ["sc_running_ctor"], "thorough")]
 for _n, _s, _c, _t in _C15:
     H("state", _n, needs_segment=["sc_cancel", "sc_send_cancel"] + _c, tier=_t,
@@ -578,8 +576,8 @@ PROPS["C17"] = dict(
 )
 PROPS["C15"] = dict(
     level="model_checking",
-    level_text="Bounded model checking of (a) cancel() as a single command against a machine in each state without a running MPC task (Init, ValidateRequested, AwaitingValidation, Validated, SendingConstsCompleted, Running; whole body of cancel() and send_cancel() cut, awaits polled once): answered exactly once, and once it answers Ok the destination of a scheduled policy has been sent exactly one Cancelled notification, nothing is enqueued, the machine and its permit are gone; (b) one schedule point on tokio's real Notify: the arm of cancel() for state Executing, cut from the async function on every run (await = one poll, the cut stops at a pending await), run against an MPC task that has been spawned but not polled yet - cancel() neither completes nor answers Ok before the task acknowledges, and the cancel notification is not lost (the task finds it when it registers); after the acknowledgement cancel() answers Ok exactly once.",
-    level_note="Partial: cancel as ONE command from a quiescent machine per state, plus ONE schedule point in Executing (cancel processed right after the MPC task was spawned - the race the property text names) and its counterpart. Also the task's side of a cancellation (cancel arm of its select! + what follows): notification first, acknowledgement after, once. NOT covered: state SendingConsts (awaits the constants task), cancel racing with a handler in flight, a cancel that wins the select! while the result notification itself is in flight, the task side (tokio::select!), 'exactly one notification, nothing afterwards' and the permit as whole-run statements, multi-threaded runtimes. " + SEG,
+    level_text="Bounded model checking of (a) cancel() as a single command against a machine in the states Init, ValidateRequested, Validated and Running ( whole body of cancel() and send_cancel() cut, awaits polled once): answered exactly once, and once it answers Ok the destination of a scheduled policy has been sent exactly one Cancelled notification, nothing is enqueued, the machine and its permit are gone; (b) one schedule point on tokio's real Notify: the arm of cancel() for state Executing, cut from the async function on every run (await = one poll, the cut stops at a pending await), run against an MPC task that has been spawned but not polled yet - cancel() neither completes nor answers Ok before the task acknowledges, and the cancel notification is not lost (the task finds it when it registers); after the acknowledgement cancel() answers Ok exactly once.",
+    level_note="Partial: cancel as ONE command from a quiescent machine per state, plus ONE schedule point in Executing (cancel processed right after the MPC task was spawned - the race the property text names) and its counterpart. Also the task's side of a cancellation (cancel arm of its select! + what follows): notification first, acknowledgement after, once. NOT covered: states AwaitingValidation, SendingConsts, SendingConstsCompleted (the drop of the rest of the state does not finish under CBMC), cancel racing with a handler in flight, a cancel that wins the select! while the result notification itself is in flight, the task side (tokio::select!), 'exactly one notification, nothing afterwards' and the permit as whole-run statements, multi-threaded runtimes. " + SEG,
     explanation="Kani/CBMC on the Executing arm of cancel() with tokio::sync::Notify compiled in.",
     outside="all other interleavings of cancel with the actor and the MPC task.",
     assumptions=[FMT, TRACING, ANS, "await = one poll with a no-op waker; a pending await ends the cut (EnvTry)"],
